@@ -686,4 +686,6 @@ def run(ctx):
     ctx.guard(r11_retire_atomic, ctx, prog)
     ctx.guard(r12_submission, ctx, prog)
     ctx.guard(r13_progress, ctx, prog)
+    from tbxlint import progress
+    ctx.guard(progress.run_files, ctx, prog, 'C05.R14', ['eventx/thread_pool.cpp', 'eventx/work_thread.cpp', 'base/cabinet.hpp', 'base/object_pool.hpp'], 'thread pool / work thread', floor=1)
     return prog
